@@ -65,7 +65,7 @@ func c16Resolve(c *Ctx, px string) *c16Fns {
 			continue
 		}
 		t := vb.Of(e.Results[0], e.Instr)
-		_, ok := ana.Match("bin<==>(call<*>(call<builtin.append>(call<*>(p0), p1)), 1)", t)
+		_, ok := ana.Match("bin<==>(call<*>(concat(call<*>(p0), p1)), 1)", t)
 		r.Check(ok, px+".verify-gate.term", c.ipos(e.Instr), "verify(hrp, data) = (polymod(expand(hrp) ‖ data) == 1) and nothing else: %s", short(t.String(), 260))
 		if ok {
 			out.polymod = calleeOf(t.Arg(0))
@@ -218,8 +218,8 @@ func c16Polymod(c *Ctx, fn *ssa.Function) *stepMap {
 	}
 	r.Check(whole, "C16.polymod-linear.all-symbols", c.P.Pos(fn.Pos()), "the loop ranges over every element of the argument")
 	// generator table single writer
-	if init, w, g := c.globalInit("pkg/bech32", "gen"); g != nil {
-		r.Check(w == 1, "C16.polymod-linear.gen-single-writer", c.P.Pos(g.Pos()), "generator table has %d writer(s): %s", w, short(init.String(), 80))
+	if w, g := c.writesOutsideInit("pkg/bech32", "gen"); g != nil {
+		r.Check(w == 0, "C16.polymod-linear.gen-single-writer", c.P.Pos(g.Pos()), "the generator table (slice or array) is written by the package initialiser only: %d other writes", w)
 	}
 	if !good {
 		return nil
